@@ -184,7 +184,8 @@ class IsotropicSolidAngle(BaseProposal):
         phi = numpy.arctan2(y, x)
         if phi < 0:
             phi += 2 * numpy.pi
-        theta = numpy.arccos(z)
+        # rounding can push the cosine marginally outside [-1, 1]
+        theta = numpy.arccos(numpy.clip(z, -1., 1.))
         # convert back to radec/degrees
         if self.isdegs and convert:
             theta *= 180. / numpy.pi
